@@ -671,9 +671,15 @@ func (sc *SyncerCmd) clusterTicker(wait usync.WaitCloser, role cluster.ClusterRo
 
 		changed, err := func() (bool, error) {
 			if role == cluster.RoleLeader {
-				err := util.Retry(func() error {
-					return sc.clusterRenew(wait.Context(), elect)
-				}, 2)
+				// a transient failure is retried once, "not the leader" is not : the lease has been
+				// somebody else's in the meantime, and renewing again could silently re-acquire it
+				var err error
+				for i := 0; i < 2; i++ {
+					err = sc.clusterRenew(wait.Context(), elect)
+					if err == nil || errors.Is(err, cluster.ErrNotLeader) {
+						break
+					}
+				}
 				if err != nil {
 					sc.logger.Errorf("renew error : key(%s), err(%v)", key, err)
 					return false, err
@@ -694,9 +700,11 @@ func (sc *SyncerCmd) clusterTicker(wait usync.WaitCloser, role cluster.ClusterRo
 		}()
 		if err != nil {
 			wait.Close(errors.Join(err, syncer.ErrBreak))
+			return
 		}
 		if changed {
 			wait.Close(nil)
+			return
 		}
 	}
 }
